@@ -304,7 +304,8 @@ let ch_c12f shex mhex xhex =
 (* ---- tar (C18) ---- *)
 let root_kid_ids = List.map int_of_nat root_kids
 let tar_id = int_of_nat (id_of_var (coq_string "tar"))
-let before_tar = let rec go = function [] -> [] | i :: l -> if i = tar_id then [] else i :: go l in go root_kid_ids
+(* the formats allowed to take precedence over tar are the specification's, not whatever the tree says now *)
+let before_tar = List.map (fun v -> int_of_nat (id_of_var v)) before_tar_spec
 (* c18 <hex hdr> <verdicts> <chain> <kind> *)
 let ch_c18 hex vec chain kind =
   let hdr = bytes_of_hex hex in
